@@ -37,6 +37,7 @@ type c19node struct {
 	Discard   bool   `json:"discard"`    // discard pattern matching the /health path / method
 	CustomIDs bool   `json:"custom_ids"` // TraceIDFunc/SpanIDFunc options
 	ForwardID bool   `json:"forward_request_id"`
+	ForwardMD bool   `json:"forward_inbound_metadata"` // proxy pattern: inbound headers/metadata are copied to the outbound call
 
 	handler http.Handler
 	unary   func(ctx context.Context, info *grpc.UnaryServerInfo, h grpc.UnaryHandler) (any, error)
@@ -126,7 +127,7 @@ func runC19(t *verifsim.Tape, cfg engine.Config) *engine.Outcome {
 	curChain := func(ctx context.Context) *c19chain { c, _ := ctx.Value(chainKey{}).(*c19chain); return c }
 	for i := range nodes {
 		n := &c19node{Trust: t.Draw("trust", 2) == 0, Limit: []int{0, 0, 1, 2, 3, 5, 8, 16, 64}[t.Draw("limit", 9)],
-			Discard: t.Draw("discard", 3) == 0, CustomIDs: t.Draw("customids", 2) == 0, ForwardID: t.Draw("fwd", 2) == 0}
+			Discard: t.Draw("discard", 3) == 0, CustomIDs: t.Draw("customids", 2) == 0, ForwardID: t.Draw("fwd", 2) == 0, ForwardMD: t.Draw("fwdmd", 3) == 0}
 		switch t.Draw("samp", 6) {
 		case 0, 1:
 			n.Sampling = 0
@@ -201,6 +202,13 @@ func runC19(t *verifsim.Tape, cfg engine.Config) *engine.Outcome {
 			record(r.Context(), hop)
 			if i+1 < ch.Depth && i+1 < len(nodes) {
 				req, _ := http.NewRequestWithContext(r.Context(), "GET", "http://n"+fmt.Sprint(i+1)+ch.Path, nil)
+				if n.ForwardMD {
+					for k, vs := range r.Header {
+						if k != "Content-Length" && k != "Host" {
+							req.Header[k] = append([]string(nil), vs...)
+						}
+					}
+				}
 				if n.ForwardID {
 					name := "X-Request-Id"
 					if nodes[i+1].Header != "" {
@@ -246,6 +254,11 @@ func runC19(t *verifsim.Tape, cfg engine.Config) *engine.Outcome {
 			}
 			if i+1 < ch.Depth && i+1 < len(nodes) {
 				octx := ctx
+				if n.ForwardMD {
+					if in, ok := metadata.FromIncomingContext(ctx); ok {
+						octx = metadata.NewOutgoingContext(octx, in.Copy())
+					}
+				}
 				if n.ForwardID {
 					octx = metadata.AppendToOutgoingContext(octx, grpcmw.RequestIDMetadataKey, hop.RID)
 				}
